@@ -13,9 +13,10 @@
 (* independent incomplete beta function).                                  *)
 (***************************************************************************)
 EXTENDS Integers, Sequences, TLC, Json, SmallRat
-CONSTANTS Vals, MaxLen
-VARIABLES x1, x2, phase
-vars == <<x1, x2, phase>>
+CONSTANTS Vals, MaxLen,
+          Reps        \* each enumerated sample is also used repeated k times (k in Reps), which reaches 30+ degrees of freedom
+VARIABLES x1, x2, phase, rep
+vars == <<x1, x2, phase, rep>>
 
 RECURSIVE SumSeq(_), SumSq(_)
 SumSeq(s) == IF s = <<>> THEN 0 ELSE Head(s) + SumSeq(Tail(s))
@@ -54,36 +55,42 @@ Paired(a, b, mu) ==
   ELSE OneQ([i \in 1..Len(a) |-> a[i] - b[i]], mu)
 Mus == {QN(0, 1), QN(1, 2), QN(-3, 1)}
 
-Init == x1 = <<>> /\ x2 = <<>> /\ phase = 1
+RECURSIVE Repl(_,_)
+Repl(q, k) == IF k = 0 THEN <<>> ELSE q \o Repl(q, k - 1)
+Init == x1 = <<>> /\ x2 = <<>> /\ phase = 1 /\ rep = 1
 \* x1 is built as a non-decreasing sequence (a bag), x2 as an arbitrary sequence (pairing by position matters)
-Grow1 == phase = 1 /\ Len(x1) < MaxLen /\ \E v \in Vals : (IF x1 = <<>> THEN TRUE ELSE v >= x1[Len(x1)]) /\ x1' = Append(x1, v) /\ UNCHANGED <<x2, phase>>
-Seal1 == phase = 1 /\ phase' = 2 /\ UNCHANGED <<x1, x2>>
-Grow2 == phase = 2 /\ Len(x2) < MaxLen /\ \E v \in Vals : x2' = Append(x2, v) /\ UNCHANGED <<x1, phase>>
-Seal2 == phase = 2 /\ phase' = 3 /\ UNCHANGED <<x1, x2>>
+Grow1 == phase = 1 /\ Len(x1) < MaxLen /\ \E v \in Vals : (IF x1 = <<>> THEN TRUE ELSE v >= x1[Len(x1)]) /\ x1' = Append(x1, v) /\ UNCHANGED <<x2, phase, rep>>
+Seal1 == phase = 1 /\ phase' = 2 /\ UNCHANGED <<x1, x2, rep>>
+Grow2 == phase = 2 /\ Len(x2) < MaxLen /\ \E v \in Vals : x2' = Append(x2, v) /\ UNCHANGED <<x1, phase, rep>>
+Seal2 == phase = 2 /\ phase' = 3 /\ (\E k \in Reps : rep' = k) /\ UNCHANGED <<x1, x2>>
 Next == Grow1 \/ Seal1 \/ Grow2 \/ Seal2
 Spec == Init /\ [][Next]_vars
 
 \* ---- laws ----
 Map(s, a, b) == [i \in 1..Len(s) |-> a * s[i] + b]
-Laws == phase = 3 =>
-  LET p == Pooled(x1, x2) w == Welch(x1, x2) ps == Pooled(x2, x1) ws == Welch(x2, x1) IN
+LawsOn(a1, a2) ==
+  LET p == Pooled(a1, a2) w == Welch(a1, a2) ps == Pooled(a2, a1) ws == Welch(a2, a1) IN
   /\ ps.err = p.err /\ ps.t2 = p.t2 /\ ps.dof = p.dof /\ ps.sign = 0 - p.sign            \* swapping negates T
   /\ ws.err = w.err /\ ws.t2 = w.t2 /\ ws.dof = w.dof /\ ws.sign = 0 - w.sign
   /\ \A ab \in {<<1, 3>>, <<2, 0>>, <<3, -5>>} :                                         \* x -> a x + b, a > 0
-       /\ Pooled(Map(x1, ab[1], ab[2]), Map(x2, ab[1], ab[2])) = p
-       /\ Welch(Map(x1, ab[1], ab[2]), Map(x2, ab[1], ab[2])) = w
-  /\ w.err = "none" => /\ QLe(QI((IF Len(x1) < Len(x2) THEN Len(x1) ELSE Len(x2)) - 1), w.dof)   \* Welch-Satterthwaite bounds
-                       /\ QLe(w.dof, QI(Len(x1) + Len(x2) - 2))
-  /\ (p.err = "none" /\ Len(x1) = Len(x2) /\ VarQ(x1) = VarQ(x2)) => p.t2 = w.t2 /\ p.dof = w.dof
-  /\ (Len(x1) = Len(x2) /\ Len(x1) >= 2) => \A mu \in Mus : Paired(x1, x2, mu) = OneQ([i \in 1..Len(x1) |-> x1[i] - x2[i]], mu)
+       /\ Pooled(Map(a1, ab[1], ab[2]), Map(a2, ab[1], ab[2])) = p
+       /\ Welch(Map(a1, ab[1], ab[2]), Map(a2, ab[1], ab[2])) = w
+  /\ w.err = "none" => /\ QLe(QI((IF Len(a1) < Len(a2) THEN Len(a1) ELSE Len(a2)) - 1), w.dof)   \* Welch-Satterthwaite bounds
+                       /\ QLe(w.dof, QI(Len(a1) + Len(a2) - 2))
+  /\ (p.err = "none" /\ Len(a1) = Len(a2) /\ VarQ(a1) = VarQ(a2)) => p.t2 = w.t2 /\ p.dof = w.dof
+  /\ (Len(a1) = Len(a2) /\ Len(a1) >= 2) => \A mu \in Mus : Paired(a1, a2, mu) = OneQ([i \in 1..Len(a1) |-> a1[i] - a2[i]], mu)
 
-Emit == phase = 3 =>
-  PrintT(ToJson([x1 |-> x1, x2 |-> x2, pooled |-> Pooled(x1, x2), welch |-> Welch(x1, x2),
+\* the laws (which involve the Welch-Satterthwaite quotient) are evaluated on the unreplicated samples, where all
+\* rationals fit TLC's integers; replicated samples carry the pooled, paired and one-sample tests
+Laws == (phase = 3 /\ rep = 1) => LawsOn(x1, x2)
+EmitOn(a1, a2) ==
+  PrintT(ToJson([x1 |-> a1, x2 |-> a2, pooled |-> Pooled(a1, a2), welch |-> IF rep = 1 THEN Welch(a1, a2) ELSE Err("unspecified"),
                  paired |-> [m \in 1..3 |-> LET mu == CHOOSE q \in Mus : (m = 1 /\ q = QN(0, 1)) \/ (m = 2 /\ q = QN(1, 2)) \/ (m = 3 /\ q = QN(-3, 1)) IN
-                                [mu |-> mu, r |-> Paired(x1, x2, mu)]],
+                                [mu |-> mu, r |-> Paired(a1, a2, mu)]],
                  one |-> [m \in 1..3 |-> LET mu == CHOOSE q \in Mus : (m = 1 /\ q = QN(0, 1)) \/ (m = 2 /\ q = QN(1, 2)) \/ (m = 3 /\ q = QN(-3, 1)) IN
-                                [mu |-> mu, r |-> OneQ(x1, mu)]],
-                 mean1 |-> IF x1 = <<>> THEN QI(0) ELSE MeanQ(x1), var1 |-> IF Len(x1) >= 2 THEN VarQ(x1) ELSE QI(0)]))
+                                [mu |-> mu, r |-> OneQ(a1, mu)]],
+                 mean1 |-> IF a1 = <<>> THEN QI(0) ELSE MeanQ(a1), var1 |-> IF Len(a1) >= 2 THEN VarQ(a1) ELSE QI(0)]))
+Emit == phase = 3 => EmitOn(Repl(x1, rep), Repl(x2, rep))
 ValsQuick == {-2, 0, 1}
 ValsThorough == {-2, 0, 1, 3}
 =============================================================================
